@@ -14,6 +14,8 @@ import (
 	"sort"
 	"strconv"
 	"strings"
+	"sync"
+	"sync/atomic"
 	"syscall"
 	"testing"
 	"time"
@@ -21,7 +23,7 @@ import (
 	"github.com/tmpim/casket"
 	_ "github.com/tmpim/casket/onevent"
 	"verifharness/hx"
-	_ "verifharness/probe"
+	"verifharness/probe"
 )
 
 type attempt struct {
@@ -89,7 +91,7 @@ func (w *world) site(port int, root string, lines ...string) string {
 }
 
 func (w *world) baseConfig(gen int) casket.Input {
-	txt := w.site(w.ports["base"], w.root(gen), "on shutdown /bin/true")
+	txt := w.site(w.ports["base"], w.root(gen), "on shutdown /bin/true", fmt.Sprintf("verifgate %d", gen))
 	return casket.CasketfileInput{Contents: []byte(txt), Filepath: "Casketfile", ServerTypeName: "http"}
 }
 
@@ -127,11 +129,12 @@ func (w *world) kindLines(kind string, gen int) []string {
 func (w *world) config(a attempt, gen int) casket.Input {
 	var b strings.Builder
 	root := w.root(gen)
-	if a.S == "reload" {
-		b.WriteString(w.site(w.ports["base"], root, "on shutdown /bin/true"))
+	isReload := a.S == "reload" || a.S == "sigreload"
+	if isReload {
+		b.WriteString(w.site(w.ports["base"], root, "on shutdown /bin/true", fmt.Sprintf("verifgate %d", gen)))
 	}
 	lines := []string{"on shutdown /bin/true"}
-	if a.S == "reload" {
+	if isReload {
 		lines = nil // one 'on' per configuration
 	}
 	kk := a.K
@@ -240,6 +243,43 @@ func (w *world) obs(baseCount int) (event, error) {
 	return event{Ev: "obs", Bound: b, Hooks: len(casket.ListPlugins()["event_hooks"]), Insts: len(casket.Instances()), Basegen: bg}, nil
 }
 
+var (
+	sigOnce  sync.Once
+	sigInput atomic.Value // casket.Input handed out by the registered loader
+	sigDone  = make(chan string, 1)
+)
+
+// reloadBySignal reloads the base instance the way production does: SIGUSR1 to the process, the
+// handler asks the registered loader for the Casketfile, purges the event hooks and restarts;
+// callback gates (verifgate in the base site) tell how it ended.
+func (w *world) reloadBySignal(in casket.Input) (*casket.Instance, error) {
+	sigInput.Store(in)
+	select {
+	case <-sigDone:
+	default:
+	}
+	old := w.base
+	if err := syscall.Kill(os.Getpid(), syscall.SIGUSR1); err != nil {
+		return nil, err
+	}
+	select {
+	case r := <-sigDone:
+		if r == "err" {
+			time.Sleep(2 * time.Millisecond) // the handler restores the hooks right after Restart returned
+			return nil, fmt.Errorf("reload by SIGUSR1 failed")
+		}
+	case <-time.After(20 * time.Second):
+		return nil, fmt.Errorf("reload by SIGUSR1 did not finish")
+	}
+	for i := 0; i < 5000; i++ {
+		if l := casket.Instances(); len(l) == 1 && l[0] != old {
+			return l[0], nil
+		}
+		time.Sleep(100 * time.Microsecond)
+	}
+	return nil, fmt.Errorf("instance list not updated after a reload by SIGUSR1")
+}
+
 // timed runs f under a watchdog; a load that never returns is an observation, not a harness fault.
 func timed(f func() error) (err error, hung bool) {
 	done := make(chan error, 1)
@@ -282,7 +322,35 @@ func TestC08(t *testing.T) {
 	defer w.busy.Close()
 	w.ports["busy"] = w.busy.Addr().(*net.TCPAddr).Port
 	w.gen, w.basegen = 1, 1
-	w.base, err = casket.Start(w.baseConfig(1))
+	sigOnce.Do(func() {
+		casket.RegisterCasketfileLoader("verifc08", casket.LoaderFunc(func(string) (casket.Input, error) {
+			in, _ := sigInput.Load().(casket.Input)
+			return in, nil
+		}))
+		casket.TrapSignals()
+		time.Sleep(20 * time.Millisecond)
+	})
+	probe.SetGate(func(point string, gen int) {
+		switch point {
+		case "restartfailed":
+			select {
+			case sigDone <- "err":
+			default:
+			}
+		case "shutdown":
+			select {
+			case sigDone <- "ok":
+			default:
+			}
+		}
+	})
+	defer probe.SetGate(nil)
+	first := w.baseConfig(1)
+	sigInput.Store(first)
+	if loaded, lerr := casket.LoadCasketfile("http"); lerr == nil && loaded != nil {
+		first = loaded // records the loader that SIGUSR1 reloads will use
+	}
+	w.base, err = casket.Start(first)
 	if err != nil {
 		res.Infra = "base start: " + err.Error()
 		return
@@ -339,6 +407,8 @@ func TestC08(t *testing.T) {
 					inst, e = casket.Start(in)
 				case "reload":
 					inst, e = w.base.Restart(in)
+				case "sigreload":
+					inst, e = w.reloadBySignal(in)
 				}
 				return e
 			})
@@ -359,7 +429,7 @@ func TestC08(t *testing.T) {
 				}
 			}
 			evs = append(evs, r)
-			if rerr == nil && a.S == "reload" {
+			if rerr == nil && (a.S == "reload" || a.S == "sigreload") {
 				w.base, w.basegen = inst, gen
 				baseCount++
 			}
@@ -378,7 +448,7 @@ func TestC08(t *testing.T) {
 				inst.ShutdownCallbacks()
 				evs = append(evs, event{Ev: "cleanup"})
 			}
-			if rerr == nil && a.S == "reload" {
+			if rerr == nil && (a.S == "reload" || a.S == "sigreload") {
 				// back to a base-only configuration
 				w.gen++
 				ni, e := w.base.Restart(w.baseConfig(w.gen))
